@@ -71,7 +71,8 @@ func (e Entry) content() string {
 const absRoot = "/abs/root"
 
 type hfs struct {
-	dir     string // the only directory that exists, as ParseFSDir is expected to ask for it
+	dir     string // the only directory that exists, in the spelling of the case ...
+	alt     string // ... and in its absolute spelling (which one the parser asks for is its business)
 	entries []Entry
 	reads   map[string]int
 }
@@ -93,7 +94,7 @@ func (d dirEntry) Mode() fs.FileMode {
 }
 
 func (h *hfs) ReadDir(dirname string) ([]fs.DirEntry, error) {
-	if dirname != h.dir {
+	if dirname != h.dir && dirname != h.alt {
 		return nil, &fs.PathError{Op: "readdir", Path: dirname, Err: syscall.ENOENT}
 	}
 	es := append([]Entry{}, h.entries...)
@@ -108,7 +109,7 @@ func (h *hfs) ReadDir(dirname string) ([]fs.DirEntry, error) {
 func (h *hfs) ReadFile(filename string) ([]byte, error) {
 	h.reads[filename]++
 	for _, e := range h.entries {
-		if path.Join(h.dir, e.Name) == filename {
+		if path.Join(h.dir, e.Name) == filename || path.Join(h.alt, e.Name) == filename {
 			if e.Dir {
 				return nil, &fs.PathError{Op: "read", Path: filename, Err: syscall.EISDIR}
 			}
@@ -194,6 +195,12 @@ func (c Case) usedDir() string {
 	return c.Dir
 }
 
+func (c Case) fs() *hfs {
+	h := &hfs{dir: c.Dir, entries: c.Entries, reads: map[string]int{}}
+	h.alt, _ = h.Abs(c.Dir)
+	return h
+}
+
 func (c Case) rejected(name string) bool {
 	if !c.Filter {
 		return false
@@ -259,7 +266,7 @@ func checkDir(c Case) *vk.Verdict {
 	if v := c.sane(); v != nil {
 		return v
 	}
-	h := &hfs{dir: c.usedDir(), entries: c.Entries, reads: map[string]int{}}
+	h := c.fs()
 	fset := token.NewFileSet()
 	pkgs, err := parser.ParseFSDir(fset, h, c.Dir, c.conf())
 	if err != nil {
@@ -437,7 +444,7 @@ func checkEntries(c Case) *vk.Verdict {
 		if e.Dir {
 			continue
 		}
-		h := &hfs{dir: c.usedDir(), entries: c.Entries, reads: map[string]int{}}
+		h := c.fs()
 		filename := path.Join(c.usedDir(), e.Name)
 		f, err := parser.ParseFSEntry(token.NewFileSet(), h, filename, nil, conf)
 		known, fl, _ := c.classify(e.Name)
